@@ -476,16 +476,16 @@ bool FileBackedPreferences::LoadFromFile(const string &filename) {
       continue;
     }
 
-    vector<string> tokens;
-    StringSplit(line, &tokens, "=");
-
-    if (tokens.size() != 2) {
+    // Only the first '=' separates the key from the value, the value itself
+    // may contain further '=' characters.
+    const string::size_type separator = line.find('=');
+    if (separator == string::npos) {
       OLA_INFO << "Skipping line: " << line;
       continue;
     }
 
-    string key = tokens[0];
-    string value = tokens[1];
+    string key = line.substr(0, separator);
+    string value = line.substr(separator + 1);
     StringTrim(&key);
     StringTrim(&value);
     m_pref_map.insert(make_pair(key, value));
